@@ -18,7 +18,7 @@ DRIVERS = {
     'adaptive': ('adaptive_search.rs', 'verif_adaptive_search', 'VERIF_ADAPTIVE_CASE', 'VERIF_ADAPTIVE_BUDGET_S'),
     'sketch': ('sketch_search.rs', 'verif_sketch_search', 'VERIF_SKETCH_CASE', 'VERIF_SKETCH_BUDGET_S'),
     'codec': ('codec_search.rs', 'verif_codec_search', 'VERIF_CODEC_CASE', 'VERIF_CODEC_BUDGET_S'),
-    'vec': ('vec_search.rs', 'verif_vec_search', 'VERIF_VEC_CASE', 'VERIF_VEC_BUDGET_S'),
+    'vec': ('vec_search.rs', 'verif_vec_search', 'VERIF_VEC_CASE', 'VERIF_VEC_BUDGET_S', 'src/vec.rs'),
 }
 
 
